@@ -950,20 +950,27 @@ Proof. unfold grid_ok; cbn. apply zgrid_ok. Qed.
    The guards of T1-T3 are needed (faithful model = the code): *)
 Definition Wd := wfree 100 100 100 400.
 
+Lemma neq_by {A B} (f : A -> B) (a b : A) : f a <> f b -> a <> b.
+Proof. intros H E. apply H. rewrite E. reflexivity. Qed.
+
+(* small distinguishing features of observations of the free world *)
+Definition ns2_is_ok (o : obs Wd) : bool := match o with ONs2 _ (Ok _) => true | _ => false end.
+Definition eval_elt (k : nat) (o : obs Wd) : Z := match o with OEval _ (Ok l) => nth k l 0 | _ => 0 end.
+
 Lemma ns2_after_failed_evaluate_witness :
   let C := mkcfg 0 0 0 true false 0 false in
   last (observations Wd C (init Wd C 7)
           [InitTrial Wd 1; Evaluate Wd 5 250; Evaluate Wd 5 950; NsGrad2 Wd 5]) (ONone Wd)
   <> last (observations Wd C (init Wd C 7)
           [InitTrial Wd 1; Evaluate Wd 5 950; NsGrad2 Wd 5]) (ONone Wd).
-Proof. vm_compute. discriminate. Qed.
+Proof. cbv zeta. apply (neq_by ns2_is_ok). vm_compute. discriminate. Qed.
 
 Lemma source_change_without_new_trial_witness :
   let C := mkcfg 1 0 0 true false 0 false in
   last (observations Wd C (init Wd C 7)
           [InitTrial Wd 1; ChangeSource Wd 8; Evaluate Wd 5 250]) (ONone Wd)
   <> last (observations Wd C (init Wd C 8) [InitTrial Wd 1; Evaluate Wd 5 250]) (ONone Wd).
-Proof. vm_compute. discriminate. Qed.
+Proof. cbv zeta. apply (neq_by (eval_elt 4)). vm_compute. discriminate. Qed.
 
 (* a plain global-fit-parameter field keeps its column when the source changes
    within a trial: an evaluation at the same parameter value re-uses it *)
@@ -973,7 +980,7 @@ Lemma plain_gfp_memo_witness :
     [InitTrial Wd 1; Evaluate Wd 5 250; ChangeSource Wd 8; Evaluate Wd 5 250]
   <> srun Wd C (sinit Wd C 7)
     [InitTrial Wd 1; Evaluate Wd 5 250; ChangeSource Wd 8; Evaluate Wd 5 250].
-Proof. vm_compute. discriminate. Qed.
+Proof. cbv zeta. apply (neq_by (fun l => eval_elt 10 (nth 3 l (ONone Wd)))). vm_compute. discriminate. Qed.
 
 Lemma ns2_after_failed_evaluate_refuted :
   exists (W : world) (C : cfg) (s0 : src W) (d : data W) (ns x ns' x' n : Z),
